@@ -90,7 +90,8 @@ def _run(ctx):
         cs = [mir.callee_decl(t) for _, t in mir.calls(drop)]
         stores = [s for b in drop["blocks"] if not b["cleanup"] for s in b["stmts"]
                   if s["k"] == "assign" and any(e["k"] == "deref" for e in s["p"]["proj"])]
-        ctx.ob("C09.W8", "Drop::drop", cs == ["writer::ShapeWriter::<T>::finalize"] and not stores,
+        rest = [c for c in cs if c != "writer::ShapeWriter::<T>::finalize"]
+        ctx.ob("C09.W8", "Drop::drop", cs.count("writer::ShapeWriter::<T>::finalize") == 1 and all(c in ("std::result::Result::<T, E>::is_err", "std::result::Result::<T, E>::is_ok", "std::result::Result::<T, E>::ok", "std::result::Result::<T, E>::err", "std::mem::drop") for c in rest) and not stores,
                "drop calls %s and stores through self %d times" % (cs, len(stores)), site=ctx.site_of(F, drop["def"]))
     ws = F.inherent_method("writer::ShapeWriter", "write_shapes")
     if not ws:
